@@ -142,17 +142,29 @@ pub fn run(args: &[String]) {
                     };
                     macro_rules! go {
                         ($t:ty) => {{
-                            let mut p = AnyPlanner::<$t>::new(kind).unwrap();
                             for &b in bases.iter() {
+                                // a fresh planner per base: with many smooth lengths cached the SMALLEST cached candidate would be
+                                // reused; the bound is at risk when only a large one is there
+                                let mut p = AnyPlanner::<$t>::new(kind).unwrap();
                                 for d in [FftDirection::Forward, FftDirection::Inverse] {
                                     let f = p.plan(b, d);
                                     evals += 1;
                                     check(kind.name(), b, [f.get_inplace_scratch_len(), f.get_outofplace_scratch_len(), f.get_immutable_scratch_len()], f.len(), &mut fails);
                                 }
-                                for _ in 0..10 {
-                                    // a prime (or twice / three times a prime) whose Bluestein inner length 2n-1.. lies below the base
+                                for round in 0..16 {
+                                    // a prime (or twice / three times a prime) whose Bluestein inner length 2n-1.. lies below the base;
+                                    // half of the draws from [b/11.5, b/6.5]: there 2*b > 12*n + 64, so an inner FFT of length b would break the bound
                                     let q = primes[rng.below(primes.len() as u64) as usize];
-                                    let n = q * [1usize, 1, 2, 3][rng.below(4) as usize];
+                                    let mut n = q * [1usize, 1, 2, 3][rng.below(4) as usize];
+                                    if round % 2 == 0 {
+                                        let lo = b * 2 / 23;
+                                        let hi = b * 2 / 13;
+                                        let cands: Vec<usize> = primes.iter().copied().filter(|&p| p >= lo && p <= hi).collect();
+                                        if cands.is_empty() {
+                                            continue;
+                                        }
+                                        n = cands[rng.below(cands.len() as u64) as usize];
+                                    }
                                     if 2 * n > b + b / 2 || n < b / 12 {
                                         continue;
                                     }
